@@ -18,5 +18,13 @@ Verdict(c) ==
          [] c.kind = "stride" -> StrideClause(c)
          [] c.kind = "index" -> IndexClause(c)
          [] c.kind = "basics" -> BasicsClause(c)
-Judge == LET c == Cases[tid] IN PrintT(ToJson([gtid |-> c.gtid, v |-> Verdict(c), tags |-> c.tag]))
+\* drift of the descriptive model of unify (AxisAlg!AuUnify): another outcome, or another set of solutions, than the model
+\* computes on the terms the enumerator asked for.  Reported, never gating.
+Drift(c) ==
+  IF c.kind # "unify" \/ c.out # "ok" THEN "none"
+  ELSE LET m == AuAsCase(c.ges, c.gfs) IN
+       IF m.ok # c.ok THEN "outcome"
+       ELSE IF c.ok /\ AaParam(m) # AaParam([c EXCEPT !.es = c.ges, !.fs = c.gfs]) THEN "solutions"
+       ELSE "none"
+Judge == LET c == Cases[tid] IN PrintT(ToJson([gtid |-> c.gtid, v |-> Verdict(c), tags |-> c.tag, drift |-> Drift(c)]))
 =============================================================================
